@@ -234,7 +234,7 @@ func c04Run(r *sim.Run) {
 		}
 		x, name = p.Stream(), "packager-stream"
 	} else if t.Chance(80) {
-		p, err := work.RawProduce(r, 3, 3, 2, 4)
+		p, err := work.RawProduceOpt(r, 3, 3, 2, 4, t.Bool(), true)
 		if err != nil {
 			panic(sim.HarnessAbort{Msg: "raw fragment producer: " + err.Error()})
 		}
